@@ -602,6 +602,8 @@ class Body:
                 add_leaf({"kind": "unknown", "why": "rvalue:" + r, "stmt": st, "bb": bb}, via)
 
         def trace_call(call, proj, via):
+            if call is not None and call.decl == "std::ops::FromResidual::from_residual" and proj and proj[0] in ("as Ok", "as Some"):
+                return  # `?` error exit: never produces the success variant
             summ = passthrough_summary(call, passthrough)
             if summ is None:
                 add_leaf({"kind": "call", "call": call, "proj": proj}, via)
